@@ -1,6 +1,6 @@
 # Human-written metadata per check for MANIFEST.json.
 ENGINES = [
-    {"name": "seqx", "path": "/verif/kit (bfs.go) + /verif/checks/*", "serves_properties": ["C12"],
+    {"name": "seqx", "path": "/verif/kit (bfs.go) + /verif/checks/*", "serves_properties": ["C03", "C12"],
      "kind_free_text": "sequential bounded-exhaustive / explicit-state explorer over the real objects (fresh object + replay per path, canonical state hash)"},
 ]
 
@@ -8,6 +8,13 @@ PENDING = "harness not built yet in this session (planned in DESIGN.md; will be 
 NOT_APPLICABLE = [{"property_id": "C%02d" % i, "reason": PENDING} for i in range(1, 21)]
 
 META = {
+    "C03": {
+        "engine": "seqx",
+        "technique": "exhaustive enumeration of delivery histories on the real handlers/frames vs reference set model",
+        "design_ref": "DESIGN.md §2 C03",
+        "text": "All delivery histories of length 6 (thorough 7) over four 6-number alphabets (contiguous, straddling the 64-frame window edge twice, near 2^32) are delivered to the bare sequence handler, to real end-to-end frames sealed by A and unsealed at B (regular and priority class), and to real link frames; signed class: all words over 5 timestamps through the bare time handler and real signed frames. Each delivery is judged by a reference model (accepted set + maximum): never accepted twice; fresh and within 64 of the newest => accepted; signed => strictly increasing. Complete for the stated alphabets and length, which covers reordering, duplication and loss in every combination.",
+        "note": "Numbers outside the alphabets are assumed to behave like those inside; the key-rollover zone (>= 0xFFFFFF00) is excluded here and covered by C15.",
+    },
     "C12": {
         "engine": "seqx",
         "technique": "bounded exhaustive enumeration of label vectors on the real switch-label code vs list-level reference simulation",
